@@ -975,14 +975,19 @@ def c06_scenarios(rng, n, exhaustive_pairs=True):
     while len(out) < n:
         rs = [rng.choice(rcls) for _ in range(rng.choice([1, 2, 2, 3]))]
         ds = [rng.choice(dcls[:3] if rng.random() < 0.85 else dcls) for _ in range(rng.choice([1, 2, 3]))]
-        out.append((rs, ds, rng.choice(modes)))
+        m = rng.choice(modes)
+        if m in ("plain", "json", "yaml", "sarif", "junit") and rng.random() < 0.4:
+            m += "+dir"          # the same files given as a rules directory and a data directory (-a: name order)
+        out.append((rs, ds, m))
     return out
 
 
 def c06_job(rs, ds, mode):
     files, argv, stdin = {}, ["validate"], b""
-    rnames = ["r%d.guard" % i for i in range(len(rs))]
-    dnames = ["d%d.%s" % (i, "yaml" if ds[i] == "goodyaml" else "json") for i in range(len(ds))]
+    as_dirs = mode.endswith("+dir")
+    mode = mode.replace("+dir", "")
+    rnames = [("rd/" if as_dirs else "") + "r%d.guard" % i for i in range(len(rs))]
+    dnames = [("dd/" if as_dirs else "") + "d%d.%s" % (i, "yaml" if ds[i] == "goodyaml" else "json") for i in range(len(ds))]
     if mode.startswith("payload"):
         if any(r == "unreadable" for r in rs):
             return None
@@ -993,8 +998,13 @@ def c06_job(rs, ds, mode):
         return {"argv": argv, "files": {}, "stdin": json.dumps(payload)}
     for n_, r in zip(rnames, rs):
         files[n_] = RULE_CLASSES[r]
-        argv += ["-r", "{DIR}/" + n_]
-    if mode == "stdin":
+        if not as_dirs:
+            argv += ["-r", "{DIR}/" + n_]
+    if as_dirs:
+        argv += ["-r", "{DIR}/rd", "-d", "{DIR}/dd", "-a"]
+        for n_, d in zip(dnames, ds):
+            files[n_] = DATA_CLASSES[d]
+    elif mode == "stdin":
         if len(ds) != 1:
             return None
         stdin = DATA_CLASSES[ds[0]]
@@ -1022,6 +1032,7 @@ def run_C06(ctx):
             jobs.append(j)
             keep.append((rs, ds, m))
     outs = vlib.run_cli_many(jobs)
+    keep = [(rs, ds, m.replace("+dir", "")) if not m.endswith("+dir") else (rs, ds, m) for rs, ds, m in keep]
     # per (rule class, data class) status from the implementation itself (library entry point)
     pairs = sorted({(r, d) for rs, ds, _ in keep for r in rs for d in ds if r not in ("unreadable",)})
     presp = ctx.hp.map([{"id": i, "op": "case", "rules": RULE_CLASSES[r], "data": DATA_CLASSES[d]} for i, (r, d) in enumerate(pairs)])
@@ -1042,7 +1053,8 @@ def run_C06(ctx):
                 files.append({"k": "empty"})
             else:
                 files.append({"k": "evaluated", "cols": [None if pst[(r, d)] == "ERR" else pst[(r, d)] for d in ds]})
-        mode = "plain" if m in ("plain", "payload-plain", "stdin") else ("junit" if m == "junit" else "structured")
+        mb = m.replace("+dir", "")
+        mode = "plain" if mb in ("plain", "payload-plain", "stdin") else ("junit" if mb == "junit" else "structured")
         if not bad_data:
             mreqs.append({"id": i, "op": "exit", "cmd": "validate", "mode": mode, "files": files})
             midx.append(i)
@@ -1074,7 +1086,7 @@ def run_C06(ctx):
                 what = "exit 0 must mean: every rules file parsed and no pair FAILed (parsed=%s any_fail=%s, exit=%s)" % (parsed, any_fail, code)
             elif parsed and any_fail and code != 19:
                 what = "all rules files parse and a pair FAILs: expected 19, got %s" % code
-            elif (not parsed) and (not any_fail) and code != 5 and not (m in ("json", "yaml", "sarif", "junit") and "unreadable" in rs and code == 255):
+            elif (not parsed) and (not any_fail) and code != 5 and not (m.replace("+dir", "") in ("json", "yaml", "sarif", "junit") and "unreadable" in rs and code == 255):
                 what = "a rules file does not parse and nothing FAILs: expected 5, got %s" % code
         if what:
             res.judge_failures.append({"what": "validate exit code: " + what, "class": "c06-validate",
@@ -1301,7 +1313,18 @@ def run_C09(ctx):
     for i in range(n):
         g = gen.G(ctx.seed * 9000011 + i)
         d = g.doc()
-        runs.append((distinct_names_program(g, d, rng.choice([1, 1, 2, 3])), json.dumps(d)))
+        progs = distinct_names_program(g, d, rng.choice([1, 1, 2, 3]))
+        if i % 2 == 0:
+            # rules that FAIL (or PASS / SKIP) without any check of their own to show: negated references to a
+            # rule / parameterised rule that passes, references to rules that fail or are skipped
+            k = rng.randrange(len(progs))
+            progs[k] += ("rule zz%d_pass { this is_struct }\nrule zz%d_fail { this is_string <<zz custom>> }\n"
+                         "rule zz%d_skip when this is_string { this exists }\n"
+                         "rule zz%d_p(x) { %%x is_struct }\n"
+                         "rule zz%d_neg_named {\nnot zz%d_pass\n}\nrule zz%d_neg_call {\nnot zz%d_p(this)\n}\n"
+                         "rule zz%d_ref_fail {\nzz%d_fail\n}\nrule zz%d_neg_fail {\nnot zz%d_fail\nnot zz%d_skip\n}\n"
+                         "rule zz%d_ref_skip {\nzz%d_skip\n}\nrule zz%d_call {\nzz%d_p(this) <<call msg>>\n}\n") % ((k,) * 17)
+        runs.append((progs, json.dumps(d)))
     # per rules file: tree (verbose) and report (library)
     reqs, owner = [], []
     for ri, (files, data) in enumerate(runs):
@@ -1970,10 +1993,25 @@ def run_C07(ctx):
         rules = distinct_names_program(g, d, 1)[0]
         if len(set(_re.findall(r"^rule (\w+)", rules, _re.M))) != len(_re.findall(r"^rule (\w+)", rules, _re.M)):
             continue
-        data = json.dumps(d)
+        # a number in exponent notation (valid JSON, typed by every loader) and two rules that depend on its type
+        d["xf"] = "@@XF@@"
+        rules += "rule xf_is_float { xf is_float }\nrule xf_cmp { xf > 0.25 }\n"
+        data = json.dumps(d).replace('"@@XF@@"', g.ch(["1e3", "5E-1", "1e-05", "2.5e+2", "1E2", "7e0"]))
         files = {"r.guard": rules, "d.json": data}
         base = ["validate", "-r", "{DIR}/r.guard", "-d", "{DIR}/d.json"]
         row = {"rules": rules, "data": data, "v": {}}
+        if i % 3 == 0:
+            # a second rules file that defines the SAME rule names: renderings must agree on the union
+            r2 = distinct_names_program(gen.G(ctx.seed * 1900037 + i + 500000), d, 1)[0]
+            if len(set(_re.findall(r"^rule (\w+)", r2, _re.M))) == len(_re.findall(r"^rule (\w+)", r2, _re.M)):
+                f2 = dict(files, **{"r2.guard": r2})
+                b2 = ["validate", "-r", "{DIR}/r.guard", "-r", "{DIR}/r2.guard", "-d", "{DIR}/d.json"]
+                row["two"] = {"S-all": add({"argv": b2 + ["-S", "all"], "files": f2}),
+                              "s-json": add({"argv": b2 + ["--structured", "-o", "json", "-S", "none"], "files": f2}),
+                              "s-yaml": add({"argv": b2 + ["--structured", "-o", "yaml", "-S", "none"], "files": f2}),
+                              "payload-json": add({"argv": ["validate", "--payload", "--structured", "-o", "json", "-S", "none"], "files": {},
+                                                   "stdin": json.dumps({"rules": [rules, r2], "data": [data]})})}
+                row["rules2"] = r2
         for key, extra in [("S-all", ["-S", "all"]), ("default", []), ("S-none", ["-S", "none"]), ("S-pass", ["-S", "pass"]),
                            ("S-fail", ["-S", "fail"]), ("S-skip", ["-S", "skip"]), ("verbose", ["-S", "all", "-v"]),
                            ("print-json", ["-S", "all", "-p"]), ("o-json", ["-S", "all", "-o", "json"]),
@@ -2093,8 +2131,23 @@ def run_C07(ctx):
                 bad.append("run_checks (library) disagrees: %s vs %s" % (partition_of_report(lr["ok"]), P))
         elif "ok_text" not in lr:
             bad.append("run_checks (library) did not evaluate: %s" % {k: v for k, v in lr.items() if k != "ok"})
+        # two rules files sharing rule names: summary tables vs structured report vs payload, as unions per status
+        if "two" in row:
+            t2 = {k: outs[j] for k, j in row["two"].items()}
+            if all(v["code"] in (0, 19) for v in t2.values()):
+                res.stats["two-rules-files-sharing-names"] += 1
+                part, _ = table(t2["S-all"]["stdout"])
+                try:
+                    pj2 = partition_of_report(json.loads(t2["s-json"]["stdout"])[0])
+                    py2 = partition_of_report(_yaml.safe_load(t2["s-yaml"]["stdout"].replace("{DIR}", "DIR"))[0])
+                    pp2 = partition_of_report(json.loads(t2["payload-json"]["stdout"])[0])
+                    for nm, pv in (("--structured -o json", pj2), ("--structured -o yaml", py2), ("--payload --structured", pp2)):
+                        if {x: pv[x] for x in ("PASS", "FAIL", "SKIP")} != {x: part[x] for x in ("PASS", "FAIL", "SKIP")}:
+                            bad.append("two rules files sharing rule names: summary tables give %s, %s gives %s" % (part, nm, pv))
+                except Exception as e:
+                    bad.append("two rules files: structured output unreadable: %s" % e)
         for b in bad:
-            res.judge_failures.append(dict(info, what="rendering/entry point changes the verdict: " + b, **{"class": "c07-" + b.split(" ")[0].strip("-:").lower()}))
+            res.judge_failures.append(dict(info, what="rendering/entry point changes the verdict: " + b, rules2=row.get("rules2"), **{"class": "c07-" + b.split(" ")[0].strip("-:").lower()}))
         if ri < 2:
             res.add_sample({"rules": row["rules"][:300], "data": row["data"], "partition": P, "exit": want_exit})
     return res
